@@ -395,6 +395,25 @@ def _nodelay(node):
     return ast.fix_missing_locations(_NoDelay().visit(copy.deepcopy(node)))
 
 
+class _CommuteAll(ast.NodeTransformer):
+    """numeric kernel code: + * & | ^ commute exactly (IEEE addition/multiplication are commutative); operands sorted by text"""
+    def visit_BinOp(self, node):
+        self.generic_visit(node)
+        if isinstance(node.op, (ast.Add, ast.Mult, ast.BitAnd, ast.BitOr, ast.BitXor)) and not isinstance(node.left, ast.BinOp) and not isinstance(node.right, ast.BinOp):
+            a, b = sorted([node.left, node.right], key=ast.unparse)
+            node.left, node.right = a, b
+        return node
+
+
+def _cn(node):
+    import copy
+    n = copy.deepcopy(node)
+    for x in ast.walk(n):
+        if hasattr(x, '_parent'):
+            del x._parent
+    return _CommuteAll().visit(n)
+
+
 def siblings(rep, K):
     rep.rule('C03.siblings', 'the four operand arms, the initial operand loads and the refresh block are identical under a->x, a_idx->x_idx, a_mem->x_mem, a_cur->x_cur, 1->2^k')
     ref_l = K.letters[0]
@@ -410,7 +429,7 @@ def siblings(rep, K):
             elif isinstance(st, ast.Assign) and is_name(st.targets[0], 'thresh'):
                 continue      # pulse threshold: a Duration, C04's business
             else:
-                txt.append(renamed(_nodelay(st), names=ren(l, w)['names']))
+                txt.append(renamed(_cn(_nodelay(st)), names=ren(l, w)['names']))
         if ref is None:
             ref = txt
             rep.ob('C03.siblings', f'arm {l} (reference)', True, sample={'rule': 'C03.siblings', 'normalised arm': txt})
@@ -435,9 +454,9 @@ def siblings(rep, K):
         if not ok:
             rep.violate('C03.siblings', K.mod, K.f, f'{name}: {sorted(ld)}', f'{name}: every operand a..d must be (re)loaded; found {sorted(ld)} (a stale delayed time would be compared)', node=K.f)
             continue
-        r0 = renamed(_nodelay(ld[ref_l].value), names=ren(ref_l, 0)['names'])
+        r0 = renamed(_cn(_nodelay(ld[ref_l].value)), names=ren(ref_l, 0)['names'])
         for l in K.letters[1:]:
-            t = renamed(_nodelay(ld[l].value), names=ren(l, 0)['names'])
+            t = renamed(_cn(_nodelay(ld[l].value)), names=ren(l, 0)['names'])
             ok = t == r0
             rep.ob('C03.siblings', f'{name}: {l} = {ref_l} under renaming', ok)
             if not ok:
